@@ -393,3 +393,51 @@ class UnionT(Shape):
             if mk.branch(sel == i):
                 return a.make(mk, name, idx)
         return self.alts[-1].make(mk, name, idx)
+
+
+class DictOf(Shape):
+    """mapping looked up with concrete keys only (attribute tables keyed by DW_AT names): each key
+    has an unconstrained membership bit and a value of the inner shape, fixed when first asked for"""
+
+    def __init__(self, inner):
+        self.inner = inner
+
+    def make(self, mk, name, idx=None):
+        from .vals import SDict, is_sym
+        inner = self.inner
+        base = mk.fname(name)
+        smk = _StableNames(mk.current()) if hasattr(mk, 'current') else mk
+        cache = {}
+
+        def key(k):
+            if is_sym(k) or not isinstance(k, (str, int)):
+                from .ctx import Unsupported
+                raise Unsupported('lookup in %s with a non-constant key' % name)
+            if k not in cache:
+                cache[k] = (smk.const('%s.has[%s]' % (base, k), BoolS), inner.make(smk, '%s[%s]' % (base, k), idx))
+            return cache[k]
+        return SDict(lambda k: key(k)[0], lambda k: key(k)[1], name)
+
+
+class Tagged(Shape):
+    """a record of one of several record classes, kept symbolic: integer class tag plus the union
+    of the fields, each present under its classes' tags"""
+
+    def __init__(self, *recs):
+        self.recs = recs
+
+    def make(self, mk, name, idx=None):
+        from .vals import kind_id
+        tag = IntT().make(mk, name + '.tag', idx)
+        mk.assume(z3.Or(*[tag == kind_id(r.kind) for r in self.recs]))
+        fields, where = {}, {}
+        for r in self.recs:
+            for k, sh in r.fields.items():
+                if k not in fields:
+                    fields[k] = sh.make(mk, name + '.' + k, idx)
+                where.setdefault(k, []).append(kind_id(r.kind))
+        present = {}
+        for k, ids in where.items():
+            if len(ids) < len(self.recs):
+                present[k] = z3.Or(*[tag == i for i in ids]) if len(ids) > 1 else tag == ids[0]
+        return SRec(fields, 'tagged', tag, present)
